@@ -1,4 +1,5 @@
 import SodiumModel.MiniC.Soundness
+import SodiumModel.MiniC.SoundnessCtx
 /-
   C11, Tie B ("translator tie") — negative controls and statement of what the MiniC checker guarantees.
 
@@ -202,5 +203,93 @@ theorem soundness_states (P : Program) (C : Ctx) (hP : checkProg P C = true) (Γ
     OutRel Γ.retPub (exec P fuel s σ1).out (exec P fuel s σ2).out :=
   let h := exec_ni P C (progOK_of_checkProg P C hP) fuel Γ s σ1 σ2 hs hσ
   ⟨h.1, h.2.1⟩
+
+/-! ### controls for the normalisations the translator uses on the larger targets (tools/c2minic.py, "Extensions")
+
+    No construct was added to MiniC for them: sub-array arguments, aliased arguments, struct members, `switch`
+    are expressed with offsets, merged array parameters, one array per member and `if` chains.  The controls
+    below show that the leaky variant of each shape is still REJECTED, that the shapes have the C meaning, and
+    that a wrong SUPPLIED context (`soundness_ctx`) cannot make a leaky function pass. -/
+
+/-- clone of `uint8_t get(const uint8_t *p) { return p[0]; }` for a call `get(a + o)`: the enclosing array is passed,
+    the offset is the extra scalar parameter `p__off` -/
+def fn_get_o : Fun := { name := "get__o", params := ["p__off"], arrParams := ["p"], body := .ret (.load "p" (.bin .add .u64 (.var "p__off") (.lit 0))) }
+/-- `x = get(tbl + s)` with a Secret `s`: a table lookup at a Secret position -/
+def fn_lookup : Fun :=
+  { name := "lookup", params := ["s"], arrParams := ["tbl"], body := Stmt.block [.call (some "x") "get__o" [.cast .u64 (.var "s")] ["tbl"], .ret (.var "x")] }
+def specs_lookup (sPub : Bool) : Ctx := [("lookup", ⟨if sPub then ["s"] else [], [], false⟩), ("get__o", ⟨["p__off"], [], false⟩)]
+theorem subarray_secret_offset_rejected : ctCheck [fn_lookup, fn_get_o] "lookup" (specs_lookup false) = false := by decide
+theorem subarray_public_offset_ok : ctCheck [fn_lookup, fn_get_o] "lookup" (specs_lookup true) = true := by decide
+theorem subarray_secret_offset_leaks :
+    (runFun [fn_lookup, fn_get_o] 20 fn_lookup [1] [[7, 8, 9]]).tr ≠ (runFun [fn_lookup, fn_get_o] 20 fn_lookup [2] [[7, 8, 9]]).tr := by decide
+example : (runFun [fn_lookup, fn_get_o] 20 fn_lookup [2] [[7, 8, 9]]).out = .ret 9 := by decide
+example : (runFun [fn_lookup, fn_get_o] 20 fn_lookup [2] [[7, 8, 9]]).tr = [.load "p" 2] := by decide
+/-- declaring the offset parameter Secret in the clone does not help: it is an index there -/
+theorem subarray_secret_offset_param_rejected :
+    ctCheck [fn_lookup, fn_get_o] "lookup" [("lookup", ⟨[], [], false⟩), ("get__o", ⟨[], [], false⟩)] = false := by decide
+
+/-- `void addto(uint8_t *h, const uint8_t *f) { h[0] = h[0] + f[0]; h[1] = h[1] + f[0]; }` called as `addto(x, x)`:
+    by-copy passing of two copies would use the OLD `f[0]` for the second statement; the merged clone (one array
+    parameter for both) computes what C computes -/
+def fn_addto_merged : Fun :=
+  { name := "addto__n_nm0", params := [], arrParams := ["h"]
+    body := Stmt.block [.store "h" (.lit 0) (.cast .u8 (.bin .add .i32 (.load "h" (.lit 0)) (.load "h" (.lit 0)))),
+                        .store "h" (.lit 1) (.cast .u8 (.bin .add .i32 (.load "h" (.lit 1)) (.load "h" (.lit 0))))] }
+def fn_addto_copy : Fun :=
+  { name := "addto", params := [], arrParams := ["h", "f"]
+    body := Stmt.block [.store "h" (.lit 0) (.cast .u8 (.bin .add .i32 (.load "h" (.lit 0)) (.load "f" (.lit 0)))),
+                        .store "h" (.lit 1) (.cast .u8 (.bin .add .i32 (.load "h" (.lit 1)) (.load "f" (.lit 0))))] }
+/-- C on `x = {3, 10}`: x[0] = 6, then x[1] = 10 + 6 = 16 -/
+theorem alias_merged_is_C : (runFun [fn_addto_merged] 20 fn_addto_merged [] [[3, 10]]).st.arrs "h" = [6, 16] := by decide
+/-- … which the unmerged function on two copies does not compute (13 instead of 16): the reason for the clones -/
+theorem alias_copy_is_not_C : (runFun [fn_addto_copy] 20 fn_addto_copy [] [[3, 10], [3, 10]]).st.arrs "h" = [6, 13] := by decide
+
+/-- struct members are separate arrays with separate labels (`st.final` Public, `st.h` Secret):
+    `hibit = st->final ? 0 : 1` is accepted, `st->h[0] ? 0 : 1` is not -/
+def fn_member (m : String) : Fun := { name := "member", params := [], arrParams := ["st.h", "st.final"], body := .ret (.cond (.load m (.lit 0)) (.lit 0) (.lit 1)) }
+theorem member_public_flag_ok : ctCheck [fn_member "st.final"] "member" [("member", ⟨[], ["st.final"], false⟩)] = true := by decide
+theorem member_secret_rejected : ctCheck [fn_member "st.h"] "member" [("member", ⟨[], ["st.final"], false⟩)] = false := by decide
+theorem member_secret_leaks :
+    (runFun [fn_member "st.h"] 10 (fn_member "st.h") [] [[0], [1]]).tr ≠ (runFun [fn_member "st.h"] 10 (fn_member "st.h") [] [[5], [1]]).tr := by decide
+
+/-- `switch (left) { case 2: b |= in[1] << 8; case 1: b |= in[0]; break; case 0: break; }` as the translator writes it -/
+def fn_switch : Fun :=
+  { name := "sw", params := ["left"], arrParams := ["in"]
+    body := Stmt.block [
+      .assign "b" (.lit 0),
+      .doWhile (Stmt.block [
+        .assign "sel" (.var "left"), .assign "m" (.lit 0),
+        .ite (.bin .bor .i32 (.var "m") (.bin .eq .i32 (.var "sel") (.lit 2)))
+          (Stmt.block [.assign "m" (.lit 1), .assign "b" (.bin .bor .u32 (.var "b") (.bin .shl .u32 (.load "in" (.lit 1)) (.lit 8)))]) .skip,
+        .ite (.bin .bor .i32 (.var "m") (.bin .eq .i32 (.var "sel") (.lit 1)))
+          (Stmt.block [.assign "m" (.lit 1), .assign "b" (.bin .bor .u32 (.var "b") (.load "in" (.lit 0))), .brk]) .skip,
+        .ite (.bin .bor .i32 (.var "m") (.bin .eq .i32 (.var "sel") (.lit 0)))
+          (Stmt.block [.assign "m" (.lit 1), .brk]) .skip]) (.lit 0),
+      .ret (.var "b")] }
+theorem switch_secret_selector_rejected : ctCheck [fn_switch] "sw" [("sw", ⟨[], [], false⟩)] = false := by decide
+theorem switch_public_selector_ok : ctCheck [fn_switch] "sw" [("sw", ⟨["left"], [], false⟩)] = true := by decide
+theorem switch_secret_selector_leaks : (runFun [fn_switch] 50 fn_switch [2] [[1, 2]]).tr ≠ (runFun [fn_switch] 50 fn_switch [0] [[1, 2]]).tr := by decide
+/-- fall-through and `break` have the C meaning -/
+example : (runFun [fn_switch] 50 fn_switch [2] [[1, 2]]).out = .ret 513 := by decide
+example : (runFun [fn_switch] 50 fn_switch [1] [[1, 2]]).out = .ret 1 := by decide
+example : (runFun [fn_switch] 50 fn_switch [0] [[1, 2]]).out = .ret 0 := by decide
+example : (runFun [fn_switch] 50 fn_switch [7] [[1, 2]]).out = .ret 0 := by decide
+
+/-- a SUPPLIED context is not trusted: claiming that the Secret-derived `x` of `lookup` is Public, or that the Secret
+    parameter `s` is, makes `checkProg` / `entryOK` fail; the inferred context passes and gives non-interference -/
+theorem ctx_lying_param_rejected :
+    checkProg [fn_lookup, fn_get_o] [("lookup", ⟨["s"], [], false⟩), ("get__o", ⟨["p__off"], [], false⟩)] = true ∧
+    entryOK fn_lookup ⟨["s"], [], false⟩ ⟨[], [], false⟩ = false := by decide
+theorem ctx_lying_local_rejected :
+    checkProg [fn_lookup, fn_get_o] [("lookup", ⟨["x"], [], false⟩), ("get__o", ⟨["p__off"], [], false⟩)] = false := by decide
+theorem ctx_lying_callee_rejected :
+    checkProg [fn_lookup, fn_get_o] [("lookup", ⟨[], [], false⟩), ("get__o", ⟨[], [], false⟩)] = false := by decide
+theorem lookup_public_ni : NonInterferent [fn_lookup, fn_get_o] fn_lookup ⟨["s"], [], false⟩ :=
+  soundness_ctx (f := "lookup") (C := [("lookup", ⟨["s"], [], false⟩), ("get__o", ⟨["p__off"], [], false⟩)]) (Γ := ⟨["s"], [], false⟩)
+    (by decide) (by decide) (by decide) (by decide)
+/-- `soundness_ctx` at the inferred context is `soundness` -/
+theorem soundness_ctx_agrees : ctCheck [fn_lookup, fn_get_o] "lookup" (specs_lookup true) =
+    (checkProg [fn_lookup, fn_get_o] (inferCtx [fn_lookup, fn_get_o] (specs_lookup true)) &&
+      entryOK fn_lookup (inferFun [fn_lookup, fn_get_o] (specs_lookup true) fn_lookup) ⟨["s"], [], false⟩) := by decide
 
 end Sodium.C11MiniC
